@@ -87,11 +87,16 @@ func genCaseSeeded(seed int) Case {
 					ref := rapid.SampledFrom(refs).Draw(t, "ref")
 					c.Prefix = append(c.Prefix, POp{Op: "tag", N: n, Ref: ref})
 					tags[ref] = n
-					if rapid.IntRange(0, 2).Draw(t, "secondTag") == 0 {
+					if rapid.IntRange(0, 2).Draw(t, "secondTag") != 1 {
 						// several tags on one node: its deletion rewrites several entries
 						ref2 := rapid.SampledFrom(refs).Draw(t, "ref2")
 						c.Prefix = append(c.Prefix, POp{Op: "tag", N: n, Ref: ref2})
 						tags[ref2] = n
+						if rapid.Bool().Draw(t, "thirdTag") {
+							ref3 := rapid.SampledFrom(refs).Draw(t, "ref3")
+							c.Prefix = append(c.Prefix, POp{Op: "tag", N: n, Ref: ref3})
+							tags[ref3] = n
+						}
 					}
 				}
 			default:
@@ -155,6 +160,22 @@ func genCaseSeeded(seed int) Case {
 		}
 		if len(tpool) > 0 && rapid.Bool().Draw(t, "preferTagged") {
 			pool = tpool
+		}
+		// deleting a node that carries several tags rewrites several entries at once
+		var t2pool []POp
+		for _, cd := range tpool {
+			k := 0
+			for _, n := range tags {
+				if n == cd.N {
+					k++
+				}
+			}
+			if cd.Op == "delete" && k >= 2 {
+				t2pool = append(t2pool, cd)
+			}
+		}
+		if len(t2pool) > 0 && rapid.IntRange(0, 2).Draw(t, "preferMultiTagged") != 1 {
+			pool = t2pool
 		}
 		// prefer deletions whose auto-GC cascade removes further manifests (stored,
 		// untagged referrers of the target, or untagged child manifests that only
